@@ -32,6 +32,9 @@ SITE_MUL = "qutip/core/cy/_element.pyx:_ProdElement.__mul__"
 SIG_MUL = "scalar-conjugated-by-antilinear-stack"
 SITE_MDT = "qutip/core/cy/_element.pyx:_ProdElement.matmul_data_t"
 SIG_MDT = "TypeError-out-None-with-transform"
+SITE_ADDI = "qutip/core/cy/coefficient.pyx:add_inter"
+SIG_ADDI_ABS = "different-grids-within-1e-15-absolute-fused"
+SIG_ADDI_OTHER = "different-grids-beyond-1e-15-fused"
 
 # The Coq model mirrors qutip after the two repairs found by this check
 # (7dc9384: _ProdElement.__mul__ conjugates the factor under a conjugating
@@ -303,7 +306,7 @@ def g_chain(rng, ext=False):
     return x
 
 
-EXT_OPS = {"copy", "pickle", "args", "div", "funcw", "funw"}
+EXT_OPS = {"copy", "pickle", "args", "div", "funcw", "funw", "arr"}
 
 
 def is_core(tree):
@@ -339,8 +342,79 @@ def gi_c(z):
     return complex(z[0], z[1])
 
 
+# ---- sampled (array) coefficients: leaf ["arr", samples, tlist, order]
+_LEAF = {}
+POLY_OPS = {"fun", "funw", "func", "funcw"}
+
+
+def _arr_new(c):
+    from qutip.core.coefficient import coefficient
+    return coefficient(np.array([gi_c(y) for y in c[1]], dtype=complex),
+                       tlist=np.array(c[2], dtype=float), order=int(c[3]))
+
+
+def arr_leaf(c):
+    """the constituent itself: a stand-alone InterCoefficient (cached)"""
+    k = json.dumps(c)
+    if k not in _LEAF:
+        _LEAF[k] = _arr_new(c)
+    return _LEAF[k]
+
+
+def arr_leaves(x, acc=None):
+    acc = [] if acc is None else acc
+    if isinstance(x, list):
+        if x and x[0] == "arr" and len(x) == 4:
+            if x not in acc:
+                acc.append(x)
+        else:
+            for y in x:
+                arr_leaves(y, acc)
+    return acc
+
+
+def _is_pow2(v):
+    m, _ = np.frexp(v)
+    return v > 0 and m == 0.5
+
+
+def arr_exact(c):
+    """order 0/1 on a grid whose gaps are powers of two and whose origin is a
+    small multiple of the smallest gap: every operation on it is exact"""
+    tl = np.array(c[2], dtype=float)
+    gaps = np.diff(tl)
+    if c[3] > 1 or not all(_is_pow2(g) for g in gaps):
+        return False
+    q = tl[0] / gaps.min()
+    return q == int(q) and abs(q) < 1024
+
+
+def cmp_mode(x):
+    leaves = arr_leaves(x)
+    if not leaves:
+        return "exact"
+    if all(arr_exact(l) for l in leaves) and not has_op(x, POLY_OPS):
+        return "exact"
+    return "tol"
+
+
+def same(got, want, x, t, mag=None):
+    """exact equality where the arithmetic is exact, 1e-12 relative to the
+    magnitude of the constituents otherwise (validation-grade comparison)"""
+    got, want = np.asarray(got, dtype=complex), np.asarray(want, dtype=complex)
+    if got.shape != want.shape:
+        return False
+    if cmp_mode(x) == "exact":
+        return bool(np.array_equal(got, want))
+    if mag is None:
+        mag = bound(x, max(1.0, abs(t))) if x and x[0] in TREE_OPS else cbound(x, max(1.0, abs(t)))
+    return bool(np.max(np.abs(got - want)) <= 1e-12 * max(1.0, mag))
+
+
 def coef_np(c, t, w=None):
     op = c[0]
+    if op == "arr":
+        return complex(arr_leaf(c)(t))
     if op == "fun":
         return sum(gi_c(k) * (t ** i) for i, k in enumerate(c[1]))
     if op == "funw":
@@ -427,9 +501,35 @@ def sem_np(x, t, w=None):
     raise ValueError(op)
 
 
+def cbound(c, T):
+    op = c[0]
+    if op == "arr":
+        return max(abs(y[0]) + abs(y[1]) for y in c[1]) * (1 if c[3] <= 1 else 8)
+    if op in ("fun", "funw"):
+        b = sum((abs(k[0]) + abs(k[1])) * T ** i for i, k in enumerate(c[1]))
+        return b * (3 if op == "funw" else 1)
+    if op == "const":
+        return abs(c[1][0]) + abs(c[1][1])
+    if op == "sum":
+        return cbound(c[1], T) + cbound(c[2], T)
+    if op == "mul":
+        return cbound(c[1], T) * cbound(c[2], T)
+    if op == "conj":
+        return cbound(c[1], T)
+    return cbound(c[1], T) ** 2
+
+
+TREE_OPS = {"const", "pair", "func", "funcw", "list", "add", "sub", "addq", "addnum", "mulnum",
+            "div", "mulcoef", "matmul", "matmulq", "rmatmulq", "neg", "trans", "conj", "dag",
+            "linmap", "compress", "ctor", "copy", "pickle", "args"}
+
+
 def bound(x, T):
     """upper bound on the magnitude of every intermediate entry"""
     def cb(c):
+        return cbound(c, T)
+
+    def _unused(c):
         op = c[0]
         if op in ("fun", "funw"):
             b = sum((abs(k[0]) + abs(k[1])) * T ** i for i, k in enumerate(c[1]))
@@ -485,6 +585,8 @@ def coef_impl(c):
     import qutip
     from qutip.core.coefficient import coefficient, const, conj as cconj, norm as cnorm
     op = c[0]
+    if op == "arr":
+        return _arr_new(c)
     if op == "fun":
         return coefficient(CoefPoly(c[1]))
     if op == "funw":
@@ -780,7 +882,7 @@ def check_call(x, t):
     except Exception as e:
         return False, "raises %s: %s" % (type(e).__name__, str(e)[:120])
     want = sem_np(x, float(t))
-    if np.array_equal(got, want):
+    if same(got, want, x, t):
         return True, ""
     return False, "got %s want %s" % (got.tolist(), want.tolist())
 
